@@ -55,7 +55,9 @@ def coder(repo, chk):
         g = dc.generators[0]
         k = g.target.id if isinstance(g.target, ast.Name) else None
         val = ast.unparse(dc.value)
-        cols_ok = ast.unparse(g.iter) in (f'{frame}.columns', 'all_columns') and not g.ifs and ast.unparse(dc.key) == k
+        it_t = term_of(fn, g.iter, inline=True)
+        from ..match import expected_term
+        cols_ok = it_t in (expected_term(m, f'{frame}.columns'), expected_term(m, frame)) and not g.ifs and ast.unparse(dc.key) == k
         prev = defs[-2] if len(defs) > 1 else None
         cat_ok = prev is not None and ".astype('category')" in ast.unparse(prev.value) and frame in ast.unparse(prev.value)
         ok = cols_ok and ((val == f'{cap}[{k}].cat.codes' and cat_ok) or val in (f'pd.factorize({frame}[{k}])[0]', f'{frame}[{k}].factorize()[0]', f"{frame}[{k}].astype('category').cat.codes"))
